@@ -72,7 +72,7 @@ theorem preprocess_render (flag : Bool) (L : Layout) (P : Prog) (hok : L.ok P = 
   have htr : TrailEnds (some flag) L.trail := by
     simp only [Layout.ok, Bool.and_eq_true] at hok
     exact trailOk_ends (some flag) hok.1.2
-  exact preprocess_textRel (some flag) L.trail (render L P) _ htr (textRel_render flag L P hok hst)
+  exact preprocess_textRel (some flag) L.trail (render L P) _ _ htr (textRel_render flag L P hok hst)
 
 theorem image_stack {flag : Bool} {P : Prog} (h : (P.image flag).isSome = true) :
     flag = true ∨ P.stmts.all (fun ls => !ls.2.isStack) = true := by
